@@ -3,6 +3,8 @@ package props
 import (
 	"bytes"
 	"fmt"
+	"github.com/jf-tech/omniparser"
+	"github.com/jf-tech/omniparser/transformctx"
 	"strings"
 
 	"verif/harness/core"
@@ -217,6 +219,45 @@ func runC18(c *core.Ctx) {
 			c.Violate("C18:"+enc+":"+format+":"+c09DiffClass(tx, tu, i), "results under encoding "+enc+" differ from results on the input converted to UTF-8 with the standard code page",
 				map[string]interface{}{"format": format, "encoding": enc, "schema": string(k.Schema(mode)), "input_hex": fmt.Sprintf("%x", input), "input": core.Trunc(string(input), 2000),
 					"first_difference_at_step": i, "declared_encoding": stepAt(tx, i), "converted_utf8": stepAt(tu, i)})
+		}
+		if bulk && tx.String() == tu.String() {
+			// two transforms over this input, alive at the same time and advanced in turns: each must still give what it gives alone
+			// (decoders are per transform)
+			c.Inc("interleaved_pairs_under_a_declared_encoding")
+			var trs [2]omniparser.Transform
+			var got [2]omni.Transcript
+			ok := true
+			for i := range trs {
+				tr, err := sx.NewTransform("in", bytes.NewReader(input), &transformctx.Ctx{})
+				if err != nil {
+					ok = false
+					break
+				}
+				trs[i] = tr
+			}
+			for step := 0; ok && step < 2100; step++ {
+				live := false
+				for i := range trs {
+					if n := len(got[i]); n > 0 && (got[i][n-1].Class == omni.EOF || got[i][n-1].Class == omni.FATAL) {
+						continue
+					}
+					live = true
+					got[i] = append(got[i], omni.ReadStep(trs[i], true))
+				}
+				if !live {
+					break
+				}
+			}
+			solo := maskLines(omni.RunAll(sx, bytes.NewReader(input), omni.RunOpts{MaxReads: 2000}), format)
+			for i := range got {
+				if g := maskLines(got[i], format); ok && g.String() != solo.String() {
+					d := firstDiff(g, solo)
+					c.Violate("C18:"+enc+":"+format+":interleaved", "a transform under encoding "+enc+" gives different results when another one over the same input is alive and advanced in turns with it",
+						map[string]interface{}{"format": format, "encoding": enc, "schema": string(k.Schema(mode)), "input": core.Trunc(string(input), 2000),
+							"first_difference_at_step": d, "interleaved": stepAt(g, d), "alone": stepAt(solo, d)})
+					break
+				}
+			}
 		}
 		if td.String() != tu.String() {
 			c.Violate("C18:default-encoding:"+format, "omitting parser_settings.encoding differs from declaring utf-8", map[string]interface{}{"format": format, "input_hex": fmt.Sprintf("%x", conv)})
